@@ -122,6 +122,8 @@ example : J (pre ++ [{ actor := "m", op := .seteuidInt 5, res := some (.err .bad
 example : J (pre ++ [{ actor := "m", op := .load ⟨"u1", "b"⟩, creations := [mk "u1b" "/c20/u1/b" (.str "u1") (some "u1") none], snap := some [M, A0, B0, ob "u1b" (some "u1") (some "Root")] }]) ≠ [] := by decide
 -- the announced object is missing from the snapshot
 example : J (pre ++ [{ actor := "m", op := .load ⟨"u1", "b"⟩, creations := [mk "u1b" "/c20/u1/b" (.str "u1") (some "u1") none], snap := some [M, A0, B0] }]) ≠ [] := by decide
+-- the same id twice in a snapshot
+example : J (pre ++ [{ actor := "m", op := .seteuidInt 5, res := some (.err .badArg), snap := some [M, A0, B0, ob "u1a" (some "u1") (some "Root")] }]) ≠ [] := by decide
 -- the driver crashed / printed no snapshot
 example : J (pre ++ [{ actor := "m", op := .seteuidInt 0, crash := true }]) ≠ [] := by decide
 example : J (pre ++ [{ actor := "m", op := .seteuidInt 5, res := some (.err .badArg) }]) ≠ [] := by decide
@@ -158,5 +160,25 @@ example : Jc { root := "Root", bb := some "Backbone", simul := true } [{ actor :
 -- a master reload that renames somebody else's uid (the class of the independently written change C20-4)
 example : J (pre ++ [{ actor := "m", op := .dest "m", creations := [{ name := "/c20/master", ans := none, made := some (ob "m" (some "zed") (some "zed")) }], res := some (.int 1), snap := some [ob "m" (some "zed") (some "zed"), A0, B0] }]) = [] := by decide
 example : J (pre ++ [{ actor := "m", op := .dest "m", creations := [{ name := "/c20/master", ans := none, made := some (ob "m" (some "zed") (some "zed")) }], res := some (.int 1), snap := some [ob "m" (some "zed") (some "zed"), ob "u1a" (some "zed") none, B0] }]) ≠ [] := by decide
+
+/-! fp clause (round 6): geteuid(function) after a via / bind op is the euid of the function's (new) owner -/
+-- positive: u1a has euid u1 (setA); the result that ends `u2a via,u1a,..` is s:u1
+example : J (pre ++ [setA, { actor := "u2a", op := .via "u1a" (.seteuidInt 5), res := some (.oid "s:u1"), fpOwner := some "u1a", first := false, snap := some [M, A1, B0] }]) = [] := by decide
+-- it reports the evaluator's euid (0) instead
+example : J (pre ++ [setA, { actor := "u2a", op := .via "u1a" (.seteuidInt 5), res := some (.int 0), fpOwner := some "u1a", first := false, snap := some [M, A1, B0] }]) ≠ [] := by decide
+-- it reports the owner's uid although the owner has no euid
+example : J (pre ++ [{ actor := "u2a", op := .via "u1a" (.seteuidInt 5), res := some (.oid "s:u1"), fpOwner := some "u1a", first := false, snap := some [M, A0, B0] }]) ≠ [] := by decide
+
+/-! vo clause (round 6): a blueprint master::valid_object refused is not created -/
+-- positive: refusal ends the op with the error, nothing is announced
+example : J (pre ++ [{ actor := "m", op := .load ⟨"u1", "b"⟩, vo := some ("/c20/u1/b", .int 0), res := some (.err .voDenied), snap := some [M, A0, B0] }]) = [] := by decide
+-- positive: approval, the segment is closed and the load goes on
+example : J (pre ++ [{ actor := "m", op := .load ⟨"u1", "b"⟩, vo := some ("/c20/u1/b", .int 1), snap := some [M, A0, B0] }]) = [] := by decide
+-- refused, created all the same
+example : J (pre ++ [{ actor := "m", op := .load ⟨"u1", "b"⟩, vo := some ("/c20/u1/b", .int 0), creations := [mk "u1b" "/c20/u1/b" (.str "u1") (some "u1") none], snap := some [M, A0, B0, ob "u1b" (some "u1") none] }]) ≠ [] := by decide
+-- refused, but the op goes on as if nothing had happened
+example : J (pre ++ [{ actor := "m", op := .load ⟨"u1", "b"⟩, vo := some ("/c20/u1/b", .none), snap := some [M, A0, B0] }]) ≠ [] := by decide
+-- the apply raised an error and the op reports success
+example : J (pre ++ [{ actor := "m", op := .load ⟨"u1", "b"⟩, vo := some ("/c20/u1/b", .err), res := some (.oid "u1b"), snap := some [M, A0, B0] }]) ≠ [] := by decide
 
 end NV.C20.Negative
